@@ -320,7 +320,7 @@ func main() {
 		return
 	}
 	f := lib.ParseFlags()
-	res := lib.NewResult("readiness: a consumer call is made before the issuer answers the initial request, or a reader is parked at the hook holding the read lock; renewal: at least two issuer requests (a renewal or retry happened)")
+	res := lib.NewResult("non-trivial — readiness: a consumer call is made before the issuer answers the initial request, or a reader is parked at the hook holding the read lock, or Run is held between close(readyCh) and Unlock; renewal: at least two issuer requests (a renewal or retry happened); bundle source: a reader or Watch call is made before the source is up. COMPLETE ENUMERATIONS (every run): all orders of first calls of Run/issuer answer/GetX509SVID/Ready for the listed (gets, readys) shapes x issuer ok/fail x {readers parked, not parked, Run held}; all orders of first calls of Run/file appearing/bundle/anchors/watch for the listed shapes; renewal small scope = every script over {short, past-half-life, fail} and every step sequence over {5 s, 10 s, 60 s, 1 h, exact wake} up to the tier's depth; plus the fixed lists. SEEDED RANDOM (not exhaustive): random readiness op sequences, random renewal scenarios, random bundle-source scenarios — hence exhaustive=false overall. traces_validated_against_impl counts model queries: one per executed scenario (its observed trace / run compared with the Lean driver) plus the 3 corpus traces recorded on the pre-fix tree (checked against both model variants but not executions, so it exceeds evaluations by 3)")
 	if f.Work == "" {
 		f.Work, _ = os.MkdirTemp("", "c19-")
 		defer os.RemoveAll(f.Work)
@@ -412,7 +412,7 @@ func main() {
 	for i := 0; i < nRand; i++ {
 		r.doReady(randomReady(rng.Fork()))
 	}
-	res.Exhaustive = true // all orders of first calls for the listed shapes
+	res.Exhaustive = false // complete enumerations (named in the rule) are mixed with seeded random families
 
 	// ---- trust-bundle source: every order of first calls of Run / file appearing / readers / Watch
 	taShapes := [][3]int{{1, 1, 0}, {1, 0, 1}, {2, 0, 0}}
